@@ -315,8 +315,8 @@ PROPS["C11"] = {
 
 PROPS["C12"] = {
     "title": "Interior removal yields the non-zero-winding silhouette",
-    "gen_modules": ["PathArith"],
-    "props_modules": ["C01", "C12"],
+    "gen_modules": ["PathArith", "Clockwise"],
+    "props_modules": ["C01", "C12", "C03Orient"],
     "corr_n": (300, 4000),
     "search_n": (400, 8000),
     "extended_factor": 2,
@@ -509,14 +509,16 @@ PROPS["C14"] = {
 
 PROPS["C03"] = {
     "title": "Colliding path graphs yields a planar, balanced, shape-preserving graph",
-    "gen_modules": ["Consts", "Basis", "Section"],
-    "props_modules": ["C03", "C03Split"],
+    "gen_modules": ["Consts", "Basis", "Section", "Clockwise"],
+    "props_modules": ["C03", "C03Split", "C03Orient"],
     "corr_n": (600, 6000),
     "search_n": (4000, 60000),
     "extended_factor": 2,
     "technique": "Lean 4 theorems (invariant preserved by every structural operation of the collision stage, for all graphs and all arguments; proven decidable checker; split algebra over the translated "
                  "subdivision) about a literal hand model of GraphPath + stage-by-stage exact replay of the real detect_collisions through hook H5 (verif_collide_trace) + geometric search",
-    "level_text": "Partial. PROVED for every graph and every value of the geometric decisions (which sections from_path skips, which collisions find_collisions returns - any number per edge, "
+    "level_text": "Partial. ORIENTATION (Props/C03Orient, Gen/Clockwise - points_are_clockwise, the test from_path starts with, generated and bit-exact, op cw): it is the sign test 0 <= sum (x_{i+1}-x_i)(y_{i+1}+y_i) over the closed polygon "
+                  "(points_are_clockwise_eq), that sum is the shoelace sum (closed_edgeSum_eq_crossSum), changes sign under reversal (edgeSum_reverse, closed_reverse), does not depend on the start vertex (closed_rotate, clockwise_rotate), "
+                  "so exactly one of a point sequence and its reversal is clockwise unless the area is zero (one_direction_clockwise) - what from_path's reversal of anticlockwise paths relies on. " "PROVED for every graph and every value of the geometric decisions (which sections from_path skips, which collisions find_collisions returns - any number per edge, "
                   "coinciding, at t=0, on the edge's own end points -, which nearby points are merged - chains, repeats, pairs joined by an edge -, which self-loops are judged very short): the invariant "
                   "Wf (every edge ends at an existing point; every edge is the following edge of exactly one edge, which ends at its start point - the library's check_following_edge_consistency in "
                   "counting form; connected_from lists existing points, none twice, and every point with an edge to this one) holds after from_path and is preserved by merge, by the edge-dividing loops "
